@@ -630,6 +630,14 @@ func (pool *TxPool) add(tx *types.Transaction, local bool) (replaced bool, err e
 	}
 	// If the transaction pool is full, discard underpriced transactions
 	if uint64(pool.all.Slots()+numSlots(tx)) > pool.config.GlobalSlots+pool.config.GlobalQueue {
+		// A same-nonce replacement lacking the price bump is refused further down: refuse
+		// it here, before other transactions get evicted to make room for it
+		sender, _ := types.Sender(pool.signer, tx) // already validated
+		for _, list := range []*txList{pool.pending[sender], pool.queue[sender]} {
+			if list != nil && list.Underbids(tx, pool.config.PriceBump) {
+				return false, ErrReplaceUnderpriced
+			}
+		}
 		// If the new transaction is underpriced, don't accept it
 		if !isLocal && pool.priced.Underpriced(tx) {
 			log.Trace("Discarding underpriced transaction", "hash", hash, "price", tx.GasPrice())
